@@ -48,7 +48,7 @@ var commonAssumptions = []string{
 }
 
 var glyphServerWeave = []weave.PkgConfig{
-	{Path: "./cmd/glyph"},
+	{Path: "./cmd/glyph", Touch: true},
 	{Path: "./pkg/server", Touch: true},
 	{Path: "./pkg/websocket"},
 	{Path: "./pkg/interpreter"},
@@ -107,7 +107,7 @@ var specs = map[string]*propSpec{
 			{"CompilerInterface / ServerInterface of the library manager", "stub", "harness implementations: real parser+compiler, recording server"},
 			{"clock, timers", "stub", "testing/synctest fake clock"},
 		},
-		FaultKinds: []string{"torn-save", "duplicate-or-extra-event", "spurious-event", "reload-fails", "clock-jump"},
+		FaultKinds: []string{"torn-save", "duplicate-or-extra-event", "spurious-event", "reload-fails", "request-in-flight-across-reload", "slow-compile", "clock-jump"},
 	},
 	"C16": {
 		ID: "C16", Title: "WebSocket rooms stay consistent under concurrency",
@@ -170,7 +170,7 @@ var specs = map[string]*propSpec{
 			{"PostgreSQL / MySQL servers", "not-run", "no network; dialect-specific BulkInsert runs only where SQLite accepts the syntax"},
 			{"clock, context deadlines", "stub", "testing/synctest fake clock"},
 		},
-		FaultKinds: []string{"cb-error", "cb-panic", "ctx-cancel", "deadline", "nested-deadline", "exec", "badconn", "begin", "commit-before", "commit-after", "rollback"},
+		FaultKinds: []string{"cb-error", "cb-error-canceled", "cb-error-deadline", "cb-error-wrapped", "cb-error-txdone", "cb-error-badconn", "cb-panic", "ctx-cancel", "deadline", "nested-deadline", "exec", "badconn", "begin", "commit-before", "commit-after", "rollback"},
 		Assumptions: []string{"no cooperative scheduling is involved: this is a sequential fault-sequence simulation inside a synctest bubble"},
 	},
 	"C15": {
